@@ -27,6 +27,10 @@ def lim(k):
     return f
 
 
+def ec_cbl(l):
+    return core.clist([core.cbytes(bytes(x or [])) for x in (l or [])])
+
+
 def env_for(home):
     return {"HOME": home, "XDG_CONFIG_HOME": os.path.join(home, ".config"), "PATH": "/usr/bin:/bin", "NO_COLOR": "1"}
 
@@ -106,7 +110,8 @@ def classify(line, target, fds):
             return None
         if os.path.dirname(path) == d and wr and "O_CREAT" in rest:
             fds[fd] = "tmp"
-            return "TCreateTmp"
+            # a fresh file of its own (O_EXCL) or at least an emptied one; anything else may hold an earlier writer's bytes
+            return "TCreateTmp" if ("O_EXCL" in rest or "O_TRUNC" in rest) else "TOther"
         return None
     if sc in ("write", "pwrite64", "fsync", "fdatasync", "close", "fchmod", "ftruncate"):
         fm = re.match(r'(\d+)', rest)
@@ -204,6 +209,9 @@ def generate(tier, seed):
                 c = run_case(wtf, base, sc, "fail", k=k, idx=idx)
                 c["new"] = list(new) if (new is not None and is_save) else None
                 cases.append(c)
+            for pt in ["fsync:1", "rename,renameat,renameat2:1", "write:2"]:
+                idx += 1
+                cases.append(run_after(wtf, base, sc, pt, idx))
             points = ["write:%d" % i for i in range(1, 5)] + ["fsync:1", "rename,renameat,renameat2:1", "openat:%d" % rnd.randrange(5, 40)]
             for pt in points:
                 for kk in ([None] if tier != "thorough" else [None, n // 3]):
@@ -225,6 +233,9 @@ def rerun(inputs):
         for i, c in enumerate(inputs):
             sc = scs[c["name"]]
             new = run_case(wtf, base, sc, "new", idx=1000 + 3 * i)
+            if c["kind"] == "after":
+                out.append(run_after(wtf, base, sc, c["point"], 1001 + 3 * i))
+                continue
             r = run_case(wtf, base, sc, c["kind"], k=(c["k"] if c.get("k", -1) >= 0 else None), point=c.get("point") or None, idx=1001 + 3 * i)
             if c["kind"] != "trace":
                 r["new"] = list(new) if (new is not None and sc[1]) else None
@@ -238,7 +249,56 @@ def ob(x):
     return "None" if x is None else "(Some %s)" % core.cbytes(bytes(x))
 
 
+def project(is_save, content):
+    """what is compared after a completed save: the notebook's bytes; the history's queries (time stamps differ between runs)"""
+    if content is None:
+        return []
+    if is_save:
+        return [list(content)]
+    try:
+        return [list(e["query"].encode()) for e in json.loads(content.decode())["entries"]]
+    except Exception:
+        return [list(b"<unparseable>")]
+
+
+def run_after(wtf, base, sc, point, idx):
+    """kill a LONG write at `point` (temp file written, not yet renamed), then run a SHORT write to completion in the same
+    home; compare the target with the same short write run in a clean home that holds the same target content."""
+    name, is_save, tpath, argv, prep = sc
+    if is_save:
+        long_argv = ["save", "--", "cmd number 0 | x", "a very long description " * 60]
+        short_argv = ["save", "--", "cmd number 0 | x", "short"]
+    else:
+        long_argv = argv[:-1] + ["list files " + "with a very long query " * 30]
+        short_argv = argv[:-1] + ["ls"]
+    home = make_home(base, "h%d" % idx)
+    home2 = make_home(base, "h%dc" % idx)
+    try:
+        prep(home)
+        target = tpath(home)
+        sysc, when = point.split(":")
+        subprocess.run(["strace", "-f", "-o", "/dev/null", "-e", "trace=%s" % sysc, "-e", "inject=%s:signal=SIGKILL:when=%s" % (sysc, when), wtf] + long_argv,
+                       env=env_for(home), cwd=os.path.join(home, "cwd"), capture_output=True)
+        mid = read(target)
+        p = subprocess.run([wtf] + short_argv, env=env_for(home), cwd=os.path.join(home, "cwd"), capture_output=True)
+        got = read(target)
+        target2 = tpath(home2)
+        os.makedirs(os.path.dirname(target2), exist_ok=True)
+        if mid is not None:
+            with open(target2, "wb") as f:
+                f.write(mid)
+        subprocess.run([wtf] + short_argv, env=env_for(home2), cwd=os.path.join(home2, "cwd"), capture_output=True)
+        want = read(target2)
+        return {"kind": "after", "name": name, "is_save": is_save, "point": point, "k": -1, "got": project(is_save, got), "want": project(is_save, want),
+                "ok": p.returncode == 0 and (not is_save or b"saved successfully!" in p.stdout)}
+    finally:
+        shutil.rmtree(home, ignore_errors=True)
+        shutil.rmtree(home2, ignore_errors=True)
+
+
 def coq_case(c):
+    if c["kind"] == "after":
+        return 'KAfter "%s" "%s" %s %s %s' % (c["name"], c["point"], ec_cbl(c["got"]), ec_cbl(c["want"]), core.cbool(c["ok"]))
     if c["kind"] == "trace":
         return 'KTrace "%s" %s' % (c["name"], core.clist(c["steps"]))
     if c["kind"] == "fail":
@@ -255,6 +315,8 @@ def sample(c):
     d = {"kind": c["kind"], "path": c["name"]}
     if c["kind"] == "trace":
         d["program"] = c["steps"]
+    elif c["kind"] == "after":
+        d.update({"kill_point_of_the_long_write": c["point"], "then": "a shorter write completes", "target_as_expected": c["got"] == c["want"], "reported_ok": c["ok"]})
     else:
         d.update({"stop_after_bytes": c.get("k"), "kill_point": c.get("point"), "old_len": len(c["old"] or []), "observed_len": len(c["observed"] or []) if c["observed"] is not None else None,
                   "reported_success": c.get("success"), "exit": c.get("exit")})
